@@ -1190,10 +1190,20 @@ func planFor(prop, tier string) (*plan, error) {
 		{
 			q := &pg.Parallel{Items: []pg.Item{{Kind: "task", Err: true, Instrument: true}, {Kind: "task", Ctx: true, Instrument: true}}, Conc: "expr", Emitters: "1", Instrument: true}
 			ps = append(ps, parProg(q, "INS-PAR"))
+			// two concurrent directives that were given the same emitter stack plus one emitter of their own
+			f := exprConc(pg.Shape("single"))
+			f.Emitters = "prestack"
+			f.Instrument = true
+			ps = append(ps, flowProg(f, "INS-prestack:single"))
 		}
 		pl.progs = numIDs(ps)
 		pl.scen = func(p *pg.Program) []genrt.Scenario {
 			var out []genrt.Scenario
+			if strings.HasPrefix(p.Fam, "INS-prestack") {
+				s6 := base(p, 1)
+				s6.Instances = 2
+				return []genrt.Scenario{s6}
+			}
 			sc := base(p, 2)
 			sc.COE = true
 			out = append(out, sc)
@@ -1376,6 +1386,17 @@ func planFor(prop, tier string) (*plan, error) {
 			q := &pg.Parallel{Items: []pg.Item{{Kind: "task", Err: true, Instrument: true}, {Kind: "task", Ctx: true, Instrument: true}}, Conc: "expr", Emitters: "shared3", Instrument: true}
 			ps = append(ps, parProg(q, "INS-shared:par"))
 		}
+		{
+			f := exprConc(pg.Shape("single"))
+			f.Emitters = "prestack"
+			f.Instrument = true
+			f.Tasks[0].Instrument = true
+			ps = append(ps, flowProg(f, "INS-prestack:single"))
+			g := exprConc(pg.Shape("chain2"))
+			g.Emitters = "prestack"
+			g.Instrument = true
+			ps = append(ps, flowProg(g, "INS-prestack:chain2"))
+		}
 		for _, n := range []string{"single", "chain2", "fork"} {
 			base := pg.Shape(n)
 			for _, sub := range subsetsInts(len(base.Tasks)) {
@@ -1452,6 +1473,11 @@ func planFor(prop, tier string) (*plan, error) {
 			if p.Fam == "INS:single" {
 				sc := base(p, 1)
 				sc.Ticks = 1
+				out = append(out, sc)
+			}
+			if strings.HasPrefix(p.Fam, "INS-prestack") {
+				sc := base(p, 1)
+				sc.Instances = 2
 				out = append(out, sc)
 			}
 			return out
